@@ -526,14 +526,29 @@ func main() {
 	if def.selftest {
 		os.Exit(selftest(bin, baseSeed, cfg, nw))
 	}
-	os.Exit(sweep(bin, def, check, *tier, baseSeed, cfg, nw, !*noEvidence))
+	code := sweep(bin, def, check, *tier, baseSeed, cfg, nw, !*noEvidence)
+	// a violation that was observed once and did not reproduce is not
+	// reported (exit 2); but a defect whose effect varies between executions
+	// (memory it corrupts, say) usually shows again a few seeds on, where it
+	// may reproduce: up to two more sweeps over the seeds that follow
+	for pass := 0; code == 2 && unconfirmedSeen && pass < 2; pass++ {
+		unconfirmedSeen = false
+		jobOffset += cfg.runs
+		fmt.Fprintf(os.Stderr, "vcheck: continuing with the next %d seeds\n", cfg.runs)
+		code = sweep(bin, def, check, *tier, baseSeed, cfg, nw, !*noEvidence)
+	}
+	os.Exit(code)
 }
 
 type checkDef struct {
 	property string
 	level    string
 	race     bool
-	selftest bool
+	// freshProcess: every job of the sweep gets a worker process of its own
+	// (C15: a race on process-wide state that is initialised lazily shows
+	// only among the first uses in a process)
+	freshProcess bool
+	selftest     bool
 	env      []string
 	budget   map[string]tierCfg
 	rule     string
@@ -628,6 +643,11 @@ func removeStaleScratch() {
 	}
 }
 
+var (
+	jobOffset       int
+	unconfirmedSeen bool
+)
+
 func sweep(bin string, def *checkDef, check, tier string, baseSeed uint64, cfg tierCfg, nw int, writeEv bool) int {
 	removeStaleScratch()
 	defer removeStaleScratch()
@@ -670,10 +690,17 @@ func sweep(bin string, def *checkDef, check, tier string, baseSeed uint64, cfg t
 				mu.Unlock()
 				jcheck := check
 				if len(def.variants) > 0 {
-					jcheck = def.variants[i%len(def.variants)]
+					jcheck = def.variants[(i+jobOffset)%len(def.variants)]
 				}
-				job := &Job{ID: i, Check: jcheck, Tier: tier, Seed: seedFor(baseSeed, i), Trace: wantSample}
+				job := &Job{ID: i, Check: jcheck, Tier: tier, Seed: seedFor(baseSeed, i+jobOffset), Trace: wantSample}
 				r := w.do(job, timeout)
+				if def.freshProcess && !w.dead {
+					w.stop()
+					w = startWorker(bin)
+					mu.Lock()
+					live[wi] = w
+					mu.Unlock()
+				}
 				if hp := os.Getenv("VCHECK_DUMP_HASHES"); hp != "" {
 					// determinism aid: one line per job, to be compared between
 					// sweeps with different worker counts / GOMAXPROCS
@@ -844,6 +871,7 @@ func sweep(bin string, def *checkDef, check, tier string, baseSeed uint64, cfg t
 		if path == "" {
 			fmt.Fprintln(os.Stderr, "vcheck: harness trouble (exit 2, not a verdict): a violation was observed once and did not reproduce in three fresh executions of the same seed")
 			code = 2
+			unconfirmedSeen = true
 		} else {
 			fmt.Printf("VIOLATION property=%s replay=%s\n", def.property, path)
 			code = 1
